@@ -20,7 +20,7 @@ from checks import common
 PROPERTY = "C11"
 LEVEL = "exploration"
 MODES = ["O0"]
-TIERS = {"quick": {"runs": 2000, "wall": 55}, "thorough": {"runs": 50000, "wall": 1500}}
+TIERS = {"quick": {"runs": 4000, "wall": 55}, "thorough": {"runs": 50000, "wall": 1500}}
 RULE = ("plan = seeded tree (top-level PELs, archive/ and other subdirectories with PELs of the same ids, junk, "
         "names embedding an id) + history of 3..10 invocations drawn from every CLI mode, each with a seeded "
         "readdir order; distinct_nontrivial counts distinct abstract traces (sequence of (mode, effect class)) "
